@@ -62,6 +62,7 @@ func runC12(c *an.Ctx) {
 	c.Floor("C12-R10", 2)
 	// ---- R9: result caches store and hand out copies
 	c07Caches(c, "C12-R9")
+	c07Cloner(c, "C12-R9")
 	// ---- R10: every version of a profile's custom rules gets a newer update time
 	c12UpdateTime(c)
 
